@@ -55,6 +55,8 @@ theorem isNoneT {α} (o : Option α) : (o.isNone = true) ↔ o = none := by case
 @[simp] theorem pbufClose_failed (sh : Sh) (e : Err) : (pbufClose sh e).failed = sh.failed := rfl
 @[simp] theorem pbufClose_putLog (sh : Sh) (e : Err) : (pbufClose sh e).putLog = sh.putLog := rfl
 @[simp] theorem pbufClose_getLog (sh : Sh) (e : Err) : (pbufClose sh e).getLog = sh.getLog := rfl
+@[simp] theorem pbufClose_started (sh : Sh) (e : Err) : (pbufClose sh e).started = sh.started := rfl
+@[simp] theorem pbufClose_sendRets (sh : Sh) (e : Err) : (pbufClose sh e).sendRets = sh.sendRets := rfl
 
 /-! ### classifiers of calls, continuations, write sections -/
 
